@@ -128,15 +128,28 @@ def sweep_unit(args):
     cpu = isas.load(isa)
     fails = []
     stats = {"starts": 0, "instructions": 0, "blocks": 0, "slices": 0, "cuts": 0}
-    REG = [(build_region(cpu, isa, 64 if tier == "thorough" else 40), None)] + delay_regions(cpu, isa, tier)
+    main = build_region(cpu, isa, 64 if tier == "thorough" else 40)
+    REG = [(main, None, None)] + [(b, st, None) for (b, st) in delay_regions(cpu, isa, tier)]
+    # the same region written into memory in three adjacent pieces (as record-based loaders do), cut inside instructions
+    seq0 = [x for x in ref_sequence(cpu, main, 0) if x[0] != "exc"]
+    inner = [x[0] + 1 for x in seq0 if x[1] >= 2]
+    if len(inner) >= 2:
+        REG.append((main, [0], (inner[len(inner) // 3], inner[(2 * len(inner)) // 3])))
     stats["regions"] = len(REG)
-    for buf, only_starts in REG:
+    for buf, only_starts, pieces in REG:
 
         def F(what, detail, start, rank=0):
-            fails.append(Failure((isa, "sweep", what), "%s region %s start %d: %s" % (isa, buf.hex()[:64], start, detail),
+            fails.append(Failure((isa, "sweep" if pieces is None else "sweep-pieces", what), "%s region %s%s start %d: %s" % (
+                isa, buf.hex()[:64], "" if pieces is None else " written in pieces cut at %r" % (pieces,), start, detail),
                                  {"kind": "sweep", "isa": isa, "region": buf.hex(), "start": start}, rank=rank).to_json())
         try:
-            p = amoco.load_program(buf, cpu=cpu)
+            if pieces is None:
+                p = amoco.load_program(buf, cpu=cpu)
+            else:
+                k1, k2 = pieces
+                p = amoco.load_program(buf[:k1], cpu=cpu)
+                p.state.mmap.write(k1, buf[k1:k2])
+                p.state.mmap.write(k2, buf[k2:])
         except Exception as ex:
             F("load-exc:%s@%s" % exc_sig(ex), "load_program raised %r" % (ex,), 0)
             continue
